@@ -420,7 +420,7 @@ Scenario(st, i) ==
      ins |-> b.ins, trim |-> b.trim, rel |-> b.rel,
      need |-> [m \in {1, 2} |-> MaxOf({0} \cup { bcp[k][3] : k \in { j \in DOMAIN bcp : bcp[j][1] = m } })],
      cuts |-> cuts \cup {b.ins[1], b.ins[2]}]
-EmitScenarios == \A st \in Strategies : \A i \in DOMAIN L[st] : PrintT("@@SCENARIO " \o ToJson(Scenario(st, i)))
-GenInit == EmitScenarios /\ s = "ILLU" /\ bi = 1 /\ reads = <<>> /\ pc = "gen" /\ loc = NoLoc /\ recs = <<>>
+EmitScenarios(dummy) == \A st \in Strategies : \A i \in DOMAIN L[st] : PrintT("@@SCENARIO " \o ToJson(Scenario(st, i)))
+GenInit == EmitScenarios(0) /\ s = "ILLU" /\ bi = 1 /\ reads = <<>> /\ pc = "gen" /\ loc = NoLoc /\ recs = <<>>
 GenNext == FALSE /\ UNCHANGED vars
 =====================================================================================================
